@@ -144,7 +144,7 @@ def exec_case(ctx, case):
                 classes.add("removed-task-nested")
         if k == "unregtask":
             classes.add("task-removed-or-replaced:unregtask")
-        if k in ("refresh", "cleanup", "clone", "verify"):
+        if k in ("refresh", "cleanup", "clone", "verify", "loadself"):
             classes.add("maint:" + k)
         mexc = rexc = None
         try:
